@@ -539,7 +539,7 @@ func queueSys(capacity int) sysDef {
 		next := 0
 		return &simple{
 			// values are a running counter: the key uses the relative pattern and the ring position
-			key: func() string { return fmt.Sprint(len(model), next%(capacity*2+1), next >= 3*capacity+2) },
+			key:     func() string { return fmt.Sprint(len(model), next%(capacity*2+1), next >= 3*capacity+2) },
 			enabled: func(i int) bool { return next < 3*capacity+3 },
 			apply: func(i int, check bool) string {
 				cls := "Queue." + names[i]
@@ -1141,7 +1141,9 @@ func subscriptionManagerSys(limit int) sysDef {
 		}
 		var log []string
 		ev := real.Events()
-		ev.ClientConnected.Hook(func(e *subscriptionmanager.ClientEvent[int]) { log = append(log, fmt.Sprintf("connected(c%d)", e.ClientID)) })
+		ev.ClientConnected.Hook(func(e *subscriptionmanager.ClientEvent[int]) {
+			log = append(log, fmt.Sprintf("connected(c%d)", e.ClientID))
+		})
 		ev.ClientDisconnected.Hook(func(e *subscriptionmanager.ClientEvent[int]) {
 			log = append(log, fmt.Sprintf("disconnected(c%d)", e.ClientID))
 		})
@@ -1151,9 +1153,15 @@ func subscriptionManagerSys(limit int) sysDef {
 		ev.TopicUnsubscribed.Hook(func(e *subscriptionmanager.ClientTopicEvent[int, int]) {
 			log = append(log, fmt.Sprintf("unsubscribed(c%d,t%d)", e.ClientID, e.Topic))
 		})
-		ev.TopicAdded.Hook(func(e *subscriptionmanager.TopicEvent[int]) { log = append(log, fmt.Sprintf("topicadded(t%d)", e.Topic)) })
-		ev.TopicRemoved.Hook(func(e *subscriptionmanager.TopicEvent[int]) { log = append(log, fmt.Sprintf("topicremoved(t%d)", e.Topic)) })
-		ev.DropClient.Hook(func(e *subscriptionmanager.DropClientEvent[int]) { log = append(log, fmt.Sprintf("drop(c%d)", e.ClientID)) })
+		ev.TopicAdded.Hook(func(e *subscriptionmanager.TopicEvent[int]) {
+			log = append(log, fmt.Sprintf("topicadded(t%d)", e.Topic))
+		})
+		ev.TopicRemoved.Hook(func(e *subscriptionmanager.TopicEvent[int]) {
+			log = append(log, fmt.Sprintf("topicremoved(t%d)", e.Topic))
+		})
+		ev.DropClient.Hook(func(e *subscriptionmanager.DropClientEvent[int]) {
+			log = append(log, fmt.Sprintf("drop(c%d)", e.ClientID))
+		})
 		clients := map[int]map[int]int{} // connected clients -> topic -> count
 		global := func() map[int]int {
 			g := map[int]int{}
@@ -1332,8 +1340,8 @@ func main() {
 	}
 	cli.Main(&cli.Property{
 		ID: "C12", Level: "model_checking", Parts: parts, QuickSecs: 50, ThoroughSecs: 600,
-		Rule: "one explicit-state search per container and option setting over all operation histories on a small universe against its abstract model (Go map, sorted multiset, bounded FIFO, last-N list, LIFO, queue of first-time pushes, windowed sum on a virtual clock, map of maps, map + expected callback log, per-client multisets); merged systems run to the fixpoint of the reachable model state space, unmerged ones to a depth bound; every return value, every read-only probe and every emitted callback/event is compared after every step; distinct = distinct states",
+		Rule:        "one explicit-state search per container and option setting over all operation histories on a small universe against its abstract model (Go map, sorted multiset, bounded FIFO, last-N list, LIFO, queue of first-time pushes, windowed sum on a virtual clock, map of maps, map + expected callback log, per-client multisets); merged systems run to the fixpoint of the reachable model state space, unmerged ones to a depth bound; every return value, every read-only probe and every emitted callback/event is compared after every step; distinct = distinct states",
 		Assumptions: []string{"random picks are checked for membership/distinctness only (8 repetitions per state)", "TimeHeap: entries older than a previously queried window are forgotten (AveragePerSecond prunes them)", "event order between independent topics of one clean-up is unspecified (compared as multisets)"},
-		NotReached: []string{"universes larger than 3-4 keys", "concurrent use of these containers"},
+		NotReached:  []string{"universes larger than 3-4 keys", "concurrent use of these containers"},
 	})
 }
